@@ -24,23 +24,6 @@ func buildBytes(b Batch, norm NormFn, mode uint32) ([]byte, error) {
 	return Persist(seg)
 }
 
-// manyTermsBatch: one field with 60..600 distinct terms sharing suffixes (a
-// term dictionary big enough for the FST builder's node cache to matter).
-func manyTermsBatch(t *rapid.T, label string) Batch {
-	k := rapid.SampledFrom([]int{60, 200, 600}).Draw(t, label+":nTerms")
-	nd := rapid.IntRange(1, 4).Draw(t, label+":nDocs")
-	b := make(Batch, nd)
-	for d := range b {
-		f := Field{Name: "a"}
-		for i := 0; i < k; i++ {
-			f.Terms = append(f.Terms, Term{T: fmt.Sprintf("w%03d-%d-commonsuffix", i, d%2), Freq: 1})
-			f.Len++
-		}
-		b[d].Fields = []Field{f}
-	}
-	return b
-}
-
 func genAnyBatch(t *rapid.T, sc *Scenario, label string) (Batch, string) {
 	switch rapid.IntRange(0, 7).Draw(t, label+":kind") {
 	case 6, 7:
